@@ -47,6 +47,8 @@ class Mod:
     ignore_missing: bool = False
     base: str | None = None     # dep whose class C_m subclasses
     ignored: set = field(default_factory=set)     # deps whose import line carries `# type: ignore`
+    extra: str = ""             # free text appended to the module (used by single checks for special constructs)
+    from_extra: dict = field(default_factory=dict)   # dep -> extra names for its from-import line
 
 
 USE_KINDS = ["call", "val", "sub", "via", "final"]
@@ -66,6 +68,8 @@ def render(m: Mod, world: "World") -> str:
             top.append(f"from {dep} import f_{d}, mk_{d}, C_{d}, K_{d}")
             if world.mods.get(dep) is not None and world.mods[dep].via:
                 top[-1] += f", via_{d}"
+            for nm in m.from_extra.get(dep, []):
+                top[-1] += f", {nm}"
             top[-1] += ign
             pref[dep] = ""
         else:
@@ -115,6 +119,8 @@ def render(m: Mod, world: "World") -> str:
             body.extend(stmts)
     if m.local_error:
         body.append(f"bad_{me}: int = 'oops'")
+    if m.extra:
+        body.append(m.extra.rstrip("\n"))
     return "\n".join(["from typing import Final"] + top + body + lazy) + "\n"
 
 
